@@ -93,6 +93,10 @@ def scenario(n, fail, point, attached, batched, second=None, history=None):
                 w.ncp.silent = True
                 tasks.append(loop.create_task(call("reset", w.ezsp.reset())))
                 await asyncio.sleep(0.05)
+            elif point == "leaving":
+                # leaveNetwork() was answered and waits for the stack-status callback
+                tasks.append(loop.create_task(call("c1", w.ezsp.leaveNetwork())))
+                await asyncio.sleep(0.05)
             out["t_fail"] = loop.time()
             out["wire_before"] = len([1 for d, _ in w.wire_log if d == "h2n"])
             # ---- inject the failure
@@ -100,6 +104,12 @@ def scenario(n, fail, point, attached, batched, second=None, history=None):
             if batched and point in ("awaiting", "queued", "idle"):
                 # a harmless wire event (an ACK) lands in the same loop iteration, just before the failure
                 pre = [(w.protocol.data_received, ashlib.spec_wire("A", ack=w.protocol._tx_seq))]
+            if batched and point == "leaving":
+                # the awaited stack-status callback arrives, and the failure is the very next thing the loop runs (for the wire
+                # failures: the next frame of the same read) - the waiter is resolved but has not run yet
+                import bellows.types as t
+                w.ncp.callback("stackStatusHandler", status=int(t.sl_Status.NETWORK_DOWN if n >= 14 else t.EmberStatus.NETWORK_DOWN))
+                pre = [(w.protocol.data_received, w.ncp.out.pop())]
             if fail == "error":
                 cbs = pre + [(w.protocol.data_received, ashlib.spec_wire("E", code=0x51))]
             elif fail == "rstack_poweron":
@@ -129,6 +139,8 @@ def scenario(n, fail, point, attached, batched, second=None, history=None):
             elif fail == "close":
                 w.ezsp.close()
                 cbs = [(w.protocol.connection_lost, None)]
+            if len(cbs) == 2 and cbs[0][0] == cbs[1][0] == w.protocol.data_received and point == "leaving":
+                cbs = [(w.protocol.data_received, cbs[0][1] + cbs[1][1])]   # one read
             for cb in cbs:
                 loop.call_soon(*cb)
             await asyncio.sleep(0.01)
@@ -221,7 +233,7 @@ def oracle(fail, point, attached, o, second=None):
             continue
         if dt > o["bound"] + (o["t_fail"] if False else 0):
             return f"{fail} at '{point}': call {tag} took {dt:.2f}s, more than the command + link timeouts ({o['bound']:.1f}s)"
-        if attached and res == "ok" and fail in ("lost_exc", "eof") and tag != "reset" and point != "idle":
+        if attached and res == "ok" and fail in ("lost_exc", "eof") and tag != "reset" and point not in ("idle", "leaving"):
             return f"{fail} at '{point}': call {tag} reported success after the connection was lost"
     return None
 
@@ -236,6 +248,12 @@ def cases(ctx):
                         if batched and fail in ("silent", "chatty", "close"):
                             continue
                         cs.append((n, fail, point, attached, batched))
+    # a network operation waiting for its stack-status callback: the failure while it waits, and right behind the callback
+    for n in ([8] if ctx.tier == "quick" else [4, 8, 13, 14]):
+        for fail in ("error", "rstack_poweron", "rstack_unknown", "lost_exc", "eof"):
+            for attached in (True, False):
+                for batched in (False, True):
+                    cs.append((n, fail, "leaving", attached, batched))
     # the same failures after an earlier life of the EZSP object (callbacks registered and removed, a scan with its own temporary
     # callback running while the application attaches)
     for n in ([8] if ctx.tier == "quick" else [4, 8, 14]):
